@@ -1000,9 +1000,28 @@ def _tucker_hold(case, A):
     return H.hold(A, "float64", case.get("prov", "ctor"), int(case["data_seed"]))[0]
 
 
-def _tucker_pair(ctx, ra, rb, A, case, c=1.0, perm=None, tag="pair"):
+def _tucker_pair(ctx, ra, rb, A, case, c=1.0, perm=None, tag="pair", control=None):
+    """control: re-runs the first presentation.  tensor.nvecs goes through ARPACK for r < n - 1, whose start vector comes
+    from an unseedable process-wide stream; where a requested direction has a Gram eigenvalue at noise level two runs of
+    one and the same presentation already differ by far more than the relation tolerance (thorough tier: 3e-6 with
+    noise 1e-6).  Such an instance says nothing about the relation under judgement: labelled, not judged."""
     ctx.require(all(isinstance(r, tuple) and len(r) == 3 and isinstance(r[2], dict) and "fit" in r[2] for r in (ra, rb)),
                 f"{tag}-returns-triples")
+    if control is not None and any(r < n - 1 for r, n in zip(case["rank"], case["shape"])):
+        try:
+            with H.captured():
+                rc = control()
+            rc = rc[0] if isinstance(rc, tuple) and len(rc) == 2 and isinstance(rc[0], tuple) else rc
+            DA0, DC0 = ref.den(ra[0]), ref.den(rc[0])
+            dev = _norm(DA0 - DC0)
+            repro = bool(np.isfinite(dev) and dev <= 0.1 * REL * max(_norm(DA0), _norm(DC0)) + 1e-300
+                         and ra[2].get("iters") == rc[2].get("iters"))
+        except Exception:  # noqa: BLE001  (the control is not the call under judgement)
+            repro = True
+        if not repro:
+            ctx.label("arpack-run-to-run-deviation-not-judged")
+            ctx.nt = False
+            return
     N = A.ndim
     DA, _ = _tt(ctx, ra[0], N, tag + "-first")
     DB, _ = _tt(ctx, rb[0], N, tag + "-second")
@@ -1054,6 +1073,24 @@ def tucker_printing(ctx, case):
             ctx.label("arpack-stop-threshold-tie-not-judged")
             ctx.nt = False
             return
+    if arpack:
+        # control: ARPACK's start vector comes from an unseedable process-wide stream.  Where a requested direction has a
+        # Gram eigenvalue at noise level, two runs of one and the same (silent) presentation already differ by far
+        # more than the relation tolerance (thorough tier: 3e-6 with noise 1e-6): such an instance says nothing about
+        # printing and is labelled, not judged
+        with ctx.sut("tucker_als-silent-again"):
+            rc, _ = _tucker(X, case, C10._tucker_init(case), printitn=int(case.get("silent", 0)), stoptol=float(case["stoptol"]))
+        try:
+            DA0, DC0 = ref.den(ra[0]), ref.den(rc[0])
+            dev = _norm(DA0 - DC0)
+            repro = bool(np.isfinite(dev) and dev <= 0.1 * REL * max(_norm(DA0), _norm(DC0)) + 1e-300
+                         and ra[2].get("iters") == rc[2].get("iters"))
+        except Exception:  # noqa: BLE001
+            repro = True
+        if not repro:
+            ctx.label("arpack-run-to-run-deviation-not-judged")
+            ctx.nt = False
+            return
     _tucker_pair(ctx, ra, rb, A, case, tag="printing")
 
 
@@ -1066,7 +1103,7 @@ def tucker_same_seed(ctx, case):
         ra, _ = _tucker(X, case, "random")
     with ctx.sut("tucker_als-seeded-2"):
         rb, _ = _tucker(X, case, "random")
-    _tucker_pair(ctx, ra, rb, A, case, tag="same-seed")
+    _tucker_pair(ctx, ra, rb, A, case, tag="same-seed", control=lambda: _tucker(X, case, "random"))
     ctx.check(isinstance(ra[1], list) and isinstance(rb[1], list) and H.snapshot(ra[1]) == H.snapshot(rb[1]),
               "same-seed-same-starting-guess")
 
@@ -1090,7 +1127,8 @@ def tucker_scaling(ctx, case):
         ra, _ = _tucker(_tucker_hold(case, A), case, C10._tucker_init(case))
     with ctx.sut("tucker_als-scaled"):
         rb, _ = _tucker(H.make_tensor(c * A), case, C10._tucker_init(case))
-    _tucker_pair(ctx, ra, rb, A, case, c=c, tag="scaling")
+    _tucker_pair(ctx, ra, rb, A, case, c=c, tag="scaling",
+                 control=lambda: _tucker(_tucker_hold(case, A), case, C10._tucker_init(case)))
 
 
 @st.composite
@@ -1124,7 +1162,8 @@ def tucker_relabel(ctx, case):
     with ctx.sut("tucker_als-relabelled"):
         rb, _ = _tucker(H.make_tensor(np.transpose(A, p)), case, gp, dimorder=[q[m] for m in dimorder],
                         rank=[case["rank"][p[i]] for i in range(N)])
-    _tucker_pair(ctx, ra, rb, A, case, perm=p, tag="relabel")
+    _tucker_pair(ctx, ra, rb, A, case, perm=p, tag="relabel",
+                 control=lambda: _tucker(_tucker_hold(case, A), case, C10._tucker_init(case)))
 
 
 # --------------------------------------------------------------------------
@@ -1485,12 +1524,12 @@ def tucker_history(ctx, case):
         return
     with ctx.sut("tucker_als-again"):
         rb = run()
-    _tucker_pair(ctx, ra, rb, A, case, tag="history")
+    _tucker_pair(ctx, ra, rb, A, case, tag="history", control=run)
     ctx.check(snap_a is None or (H.snapshot(ra[0]), H.snapshot(ra[1])) == snap_a, "history-first-result-unchanged-by-later-calls")
     X, g = _tucker_hold(case, A), C10._tucker_init(case)  # objects built afresh for the same problem (`run` reads X and g)
     with ctx.sut("tucker_als-fresh-objects"):
         rc = run()
-    _tucker_pair(ctx, ra, rc, A, case, tag="history-vs-fresh-objects")
+    _tucker_pair(ctx, ra, rc, A, case, tag="history-vs-fresh-objects", control=run)
 
 
 @cell("C18/hosvd/call-history", strategy=lambda tier: st.composite(lambda draw: _hist(draw, _hosvd_print_case, tier))(),
@@ -1602,10 +1641,12 @@ def _apr_history_body(ctx, case):
         ctx.label("pqnr-known-assertion-not-judged")
         ctx.nt = False
         return
-    # the same presentation twice: deterministic, no conditioning argument applies
-    ctx.require(all(isinstance(r, tuple) and len(r) == 3 for r in (ra, rb)), "history-returns-triples")
-    _close(ctx, _kt(ctx, ra[0], case["shape"], int(case["R"]), "history-first"),
-           _kt(ctx, rb[0], case["shape"], int(case["R"]), "history-second"), "history-same-model")
+    # the same presentation twice -- but not bit for bit the same computation: an entry edited to zero and restored is
+    # stored again at the end of the sparse tensor, so sums run in another order, and the row-subproblem solvers can
+    # amplify that rounding difference on numerically unstable instances (thorough tier: pqnr, deviation 5e-3).  Same
+    # judgement as for two presentations: instances that move by as much under a 1e-13 perturbation of the guess are
+    # labelled, not judged.
+    _apr_pair(ctx, ra, rb, case, "history", lambda which, gi: run(gi))
 
 
 for _alg in ("mu", "pdnr", "pqnr"):
@@ -2202,7 +2243,8 @@ def tucker_reporting(ctx, case):
             ctx.label("arpack-stop-threshold-tie-not-judged")
             ctx.nt = False
             return
-        _tucker_pair(ctx, ra, rb, A, case, tag="reporting")
+        _tucker_pair(ctx, ra, rb, A, case, tag="reporting",
+                     control=lambda: _tucker(X, case, C10._tucker_init(case), printitn=0, stoptol=st_))
 
 
 def _tucker_dimorder_uint64(case):
